@@ -211,6 +211,150 @@ Section ApplyProofs.
       rewrite H2. cbn [fst snd]. repeat split.
       rewrite has_root_app. apply orb_true_iff. right. apply root_eqb_eq. reflexivity.
   Qed.
+
+  (* ---------- the storage worker's diff sync ---------- *)
+  Notation sync_root := (sync_root digest digest_eqb root_of strict).
+  Notation sync_with_peers := (sync_with_peers digest digest_eqb root_of strict).
+
+  Lemma open_root_wf d r m : db_wf d -> open_root d r = Some m -> root_of m = r_hash r.
+  Proof.
+    intros Hwf. unfold Model.open_root.
+    destruct (digest_eqb (r_hash r) (root_of [])) eqn:E.
+    - intros H. injection H as <-. apply digest_eqb_spec in E. congruence.
+    - destruct (find _ d) as [x|] eqn:Ef; [|discriminate]. intros H. injection H as <-.
+      apply find_some in Ef as [Hin Heq]. apply root_eqb_eq in Heq. subst r.
+      apply Hwf. destruct x. exact Hin.
+  Qed.
+
+  Lemma find_none_of_existsb {A} (f : A -> bool) l : existsb f l = false -> find f l = None.
+  Proof.
+    induction l as [|x r IH]; cbn [existsb find]; [reflexivity|].
+    destruct (f x); [discriminate|exact IH].
+  Qed.
+
+  Lemma find_app_none {A} (f : A -> bool) l1 l2 : find f l1 = None -> find f (l1 ++ l2) = find f l2.
+  Proof.
+    induction l1 as [|x r IH]; cbn [find app]; [reflexivity|].
+    destruct (f x); [discriminate|exact IH].
+  Qed.
+
+  Lemma has_root_opens d r : has_root d r = true -> exists m, open_root d r = Some m.
+  Proof.
+    unfold Model.has_root, Model.open_root. destruct (digest_eqb (r_hash r) (root_of [])).
+    - intros _. exists []. reflexivity.
+    - cbn [orb]. intros H. destruct (find (fun x => root_eqb (fst x) r) d) as [x|] eqn:Ef.
+      + exists (snd x). reflexivity.
+      + exfalso. apply existsb_exists in H as [x [Hin Hx]].
+        pose proof (find_none _ _ Ef x Hin) as Hn. cbv beta in Hn. congruence.
+  Qed.
+
+  Lemma same_or_collision m new : root_of m = root_of new -> m = new \/ collision.
+  Proof.
+    intros H. destruct (kvmap_eqb m new) eqn:E.
+    - left. apply kvmap_eqb_eq. exact E.
+    - right. exists m, new. split; [|exact H]. intros Heq. apply kvmap_eqb_eq in Heq. congruence.
+  Qed.
+
+  Definition holds_announced (d : db) (this : root) : Prop :=
+    has_root d this = true /\
+    exists m, open_root d this = Some m /\ root_of m = r_hash this /\
+      forall new, root_of new = r_hash this -> m = new \/ collision.
+
+  Lemma holds_announced_of_has d this : db_wf d -> has_root d this = true -> holds_announced d this.
+  Proof.
+    intros Hwf Hh. split; [exact Hh|]. destruct (has_root_opens d this Hh) as [m Hm].
+    exists m. split; [exact Hm|]. pose proof (open_root_wf d this m Hwf Hm) as Hr.
+    split; [exact Hr|]. intros new Hn. apply same_or_collision. congruence.
+  Qed.
+
+  (* an accepted sync, whatever the peer answered: the database holds the
+     announced root with contents that hash to it, i.e. the announced contents
+     unless root_of collides *)
+  Lemma sync_root_sound_lem fin d prev this peer :
+    db_wf d -> accepted (snd (sync_root fin d prev this peer)) = true ->
+    db_wf (fst (sync_root fin d prev this peer)) /\
+    holds_announced (fst (sync_root fin d prev this peer)) this.
+  Proof.
+    intros Hwf. unfold Model.sync_root. destruct (has_root d this) eqn:Eh; cbn [fst snd].
+    - intros _. split; [exact Hwf|]. apply holds_announced_of_has; assumption.
+    - set (wl := if digest_eqb (r_hash this) (r_hash prev) then [] else peer).
+      intros Hacc. assert (Hok : snd (apply fin d prev this wl) = AOk).
+      { pose proof (apply_cases fin d prev this wl) as H. cbv zeta in H.
+        destruct H as [[_ H]|[[_ [_ H]]|[[_ [_ [_ [H|H]]]]|[old [_ [_ [_ [[_ [_ H]]|[[_ [_ H]]|[_ H]]]]]]]]]];
+          rewrite H in *; cbn [snd accepted] in *; congruence. }
+      split; [apply apply_preserves_wf; exact Hwf|].
+      destruct (apply_ok_persisted_lem fin d prev this wl Hok) as [Hhas _].
+      apply holds_announced_of_has; [apply apply_preserves_wf; exact Hwf|exact Hhas].
+  Qed.
+
+  (* a rejected sync leaves the database as it was *)
+  Lemma sync_root_rejected_lem fin d prev this peer :
+    accepted (snd (sync_root fin d prev this peer)) = false ->
+    fst (sync_root fin d prev this peer) = d.
+  Proof.
+    unfold Model.sync_root. destruct (has_root d this); cbn [fst snd accepted]; [discriminate|].
+    intros H. apply apply_error_unchanged_lem. intros E. rewrite E in H. discriminate.
+  Qed.
+
+  (* any sequence of (possibly malicious) peer answers *)
+  Lemma sync_with_peers_sound_lem fin answers : forall d prev this,
+    db_wf d ->
+    let res := sync_with_peers fin d prev this answers in
+    db_wf (fst res) /\
+    (snd res = true -> holds_announced (fst res) this) /\
+    (snd res = false -> fst res = d).
+  Proof.
+    induction answers as [|wl r IH]; intros d prev this Hwf; cbn [Model.sync_with_peers].
+    - cbn [fst snd]. split; [exact Hwf|split; [discriminate|intros _; reflexivity]].
+    - destruct (sync_root fin d prev this wl) as [d' c] eqn:E.
+      destruct (accepted c) eqn:Ea; cbn [fst snd].
+      + pose proof (sync_root_sound_lem fin d prev this wl Hwf) as H. rewrite E in H. cbn [fst snd] in H.
+        destruct (H Ea) as [H1 H2]. split; [exact H1|split; [intros _; exact H2|discriminate]].
+      + pose proof (sync_root_rejected_lem fin d prev this wl) as H. rewrite E in H. cbn [fst snd] in H.
+        rewrite (H Ea). apply IH. exact Hwf.
+  Qed.
+
+  (* ... and as soon as one peer is honest (answers with the log of the batch,
+     in any order) the sync is accepted *)
+  Lemma sync_root_honest_lem fin d prev this old ops wl :
+    db_wf d -> sorted old ->
+    follows this prev = true -> open_root d prev = Some old ->
+    is_finalized fin (r_version this) = false ->
+    r_hash this = root_of (contents (run_batch old ops)) ->
+    Permutation (commit_writelog (run_batch old ops)) wl ->
+    accepted (snd (sync_root fin d prev this wl)) = true.
+  Proof.
+    intros Hwf Hs Hf Ho Hfin Hd Hp. unfold Model.sync_root.
+    destruct (has_root d this) eqn:Eh; cbn [snd accepted]; [reflexivity|].
+    destruct (digest_eqb (r_hash this) (r_hash prev)) eqn:Ee.
+    - apply digest_eqb_spec in Ee.
+      assert (H : snd (apply fin d prev this []) = AOk).
+      { apply (apply_known_root_lem fin d prev this [] old Hf Eh Ho Hfin).
+        change (apply_writelog old []) with old. rewrite (open_root_wf d prev old Hwf Ho). congruence. }
+      rewrite H. reflexivity.
+    - destruct (sync_reaches_end_root_lem fin d prev this old ops wl Hs Hf Ho Hfin Hd Hp) as [H _].
+      rewrite H. reflexivity.
+  Qed.
+
+  Lemma sync_with_peers_live_lem fin answers : forall d prev this old ops wl,
+    db_wf d -> sorted old ->
+    follows this prev = true -> open_root d prev = Some old ->
+    is_finalized fin (r_version this) = false ->
+    r_hash this = root_of (contents (run_batch old ops)) ->
+    Permutation (commit_writelog (run_batch old ops)) wl ->
+    In wl answers ->
+    snd (sync_with_peers fin d prev this answers) = true.
+  Proof.
+    induction answers as [|a r IH]; intros d prev this old ops wl Hwf Hs Hf Ho Hfin Hd Hp Hin;
+      [destruct Hin|]. cbn [Model.sync_with_peers].
+    destruct (sync_root fin d prev this a) as [d' c] eqn:E.
+    destruct (accepted c) eqn:Ea; cbn [snd]; [reflexivity|].
+    pose proof (sync_root_rejected_lem fin d prev this a) as Hrej. rewrite E in Hrej. cbn [fst snd] in Hrej.
+    rewrite (Hrej Ea). destruct Hin as [->|Hin].
+    - exfalso. pose proof (sync_root_honest_lem fin d prev this old ops wl Hwf Hs Hf Ho Hfin Hd Hp) as H.
+      rewrite E in H. cbn [snd] in H. congruence.
+    - eapply IH; eassumption.
+  Qed.
 End ApplyProofs.
 
 (* ---------- non-vacuity ---------- *)
@@ -224,13 +368,13 @@ Example ex_apply :
   let wl := commit_writelog (run_batch ex_old ex_ops) in
   let d := [(ex_root 5 ex_old, ex_old)] in
   run_attempts false (Some 5) d
-    [ mkAttempt (ex_root 5 ex_old) (ex_root 6 new) (removelast wl);
-      mkAttempt (ex_root 5 ex_old) (ex_root 8 new) wl;
-      mkAttempt (ex_root 5 ex_old) (ex_root 6 new) (rev wl);
-      mkAttempt (ex_root 5 ex_old) (ex_root 6 new) [];
-      mkAttempt (ex_root 4 [([9], [9])]) (ex_root 5 [([8], [])]) [([8], Some [])];
-      mkAttempt (ex_root 4 [([9], [9])]) (ex_root 5 [([8], [])]) [];
-      mkAttempt (ex_root 5 ex_old) (ex_root 5 [([8], [])]) [([1], None); ([1; 2], None); ([3], None); ([8], Some [])] ]
+    [ mkAttempt (ex_root 5 ex_old) (ex_root 6 new) (removelast wl) false;
+      mkAttempt (ex_root 5 ex_old) (ex_root 8 new) wl false;
+      mkAttempt (ex_root 5 ex_old) (ex_root 6 new) (rev wl) false;
+      mkAttempt (ex_root 5 ex_old) (ex_root 6 new) [] false;
+      mkAttempt (ex_root 4 [([9], [9])]) (ex_root 5 [([8], [])]) [([8], Some [])] false;
+      mkAttempt (ex_root 4 [([9], [9])]) (ex_root 5 [([8], [])]) [] false;
+      mkAttempt (ex_root 5 ex_old) (ex_root 5 [([8], [])]) [([1], None); ([1; 2], None); ([3], None); ([8], Some [])] false ]
   = [(AMismatch, false); (AFollow, false); (AOk, true); (AOk, true);
      (AOther, false); (AMismatch, false); (AOther, false)].
 Proof. vm_compute. reflexivity. Qed.
